@@ -590,3 +590,72 @@ func (c *Ctx) MapFat() *Doc {
 	}
 	return d
 }
+
+// ---------------------------------------------------------------------------
+// params family (C04, C09): query / header declarations at operation and path-item
+// level, with overriding, inline / schema $ref / component parameter forms.
+
+func (c *Ctx) ParamsDoc(withPathVars bool) *Doc {
+	t := c.T
+	d := c.Doc
+	np := rapid.IntRange(2, 4).Draw(t, "npaths")
+	for i := 0; i < np; i++ {
+		segs := []string{c.PlainName("r", "seg")}
+		var pathVars []*Parameter
+		if withPathVars && rapid.Bool().Draw(t, "has_pathvar") {
+			nv := rapid.IntRange(1, 2).Draw(t, "npathvars")
+			for j := 0; j < nv; j++ {
+				name := c.PlainName("v", "var")
+				segs = append(segs, "{"+name+"}")
+				prim := rapid.SampledFrom(PathVarPrims).Draw(t, "pathvar_prim")
+				pathVars = append(pathVars, &Parameter{Name: name, In: "path", Required: true, Schema: prim.Schema()})
+				if rapid.Bool().Draw(t, "lit_between") {
+					segs = append(segs, c.PlainName("s", "seg"))
+				}
+			}
+		}
+		pi := &PathItem{}
+		d.Paths["/"+strings.Join(segs, "/")] = pi
+		mkParam := func(in string, level string) *Parameter {
+			prefix := "q"
+			if in == "header" {
+				prefix = "X-H"
+			}
+			return c.Param(in, c.SafeName(prefix, "pname"), rapid.Bool().Draw(t, "param_required"))
+		}
+		npl := rapid.IntRange(0, 2).Draw(t, "npathlevel")
+		for j := 0; j < npl; j++ {
+			in := rapid.SampledFrom([]string{"query", "query", "header"}).Draw(t, "pl_in")
+			pi.Parameters = append(pi.Parameters, mkParam(in, "path-item"))
+		}
+		pathVarsAtPathLevel := len(pathVars) > 0 && rapid.Bool().Draw(t, "pathvars_level")
+		if pathVarsAtPathLevel {
+			pi.Parameters = append(pi.Parameters, pathVars...)
+		}
+		nm := rapid.IntRange(1, 2).Draw(t, "nmethods")
+		ms := rapid.SliceOfNDistinct(rapid.SampledFrom([]string{"GET", "POST", "PUT", "DELETE"}), nm, nm, rapid.ID[string]).Draw(t, "methods")
+		for _, m := range ms {
+			op := MinimalOp()
+			pi.SetOp(m, op)
+			if !pathVarsAtPathLevel {
+				op.Parameters = append(op.Parameters, pathVars...)
+			}
+			nop := rapid.IntRange(1, 4).Draw(t, "noplevel")
+			for j := 0; j < nop; j++ {
+				in := rapid.SampledFrom([]string{"query", "query", "header"}).Draw(t, "op_in")
+				op.Parameters = append(op.Parameters, mkParam(in, "operation"))
+			}
+			// override a path-item level parameter with a different declaration
+			for _, pl := range pi.Parameters {
+				r := d.ResolveParameter(pl)
+				if r == nil || r.In == "path" || rapid.IntRange(0, 2).Draw(t, "override") != 0 {
+					continue
+				}
+				ov := &Parameter{Name: r.Name, In: r.In, Required: !r.Required, Schema: c.ParamSchema(r.In, "override")}
+				op.Parameters = append(op.Parameters, ov)
+				c.Tag("param:override")
+			}
+		}
+	}
+	return d
+}
